@@ -592,6 +592,18 @@ func (g *Gen) callMods(cc *ssa.CallCommon, add *ModSet) {
 	g.dynMods(cc.Value, add)
 }
 
+// dynTargetsOf: the module functions a call through this function value may reach.
+func (g *Gen) dynTargetsOf(v ssa.Value) []*ssa.Function {
+	if mc, ok := v.(*ssa.MakeClosure); ok {
+		return []*ssa.Function{mc.Fn.(*ssa.Function)}
+	}
+	sig, ok := v.Type().Underlying().(*types.Signature)
+	if !ok {
+		return nil
+	}
+	return g.dynTargets[sigKey(sig)]
+}
+
 // dynMods: a call through a function value.
 func (g *Gen) dynMods(v ssa.Value, add *ModSet) {
 	if mc, ok := v.(*ssa.MakeClosure); ok {
@@ -612,4 +624,49 @@ func (g *Gen) dynMods(v ssa.Value, add *ModSet) {
 	}
 	// and any function supplied from outside the module
 	add.external = true
+}
+
+// subtreeLocks: fn or something it may call locks a mutex.
+func (g *Gen) subtreeLocks(fn *ssa.Function) bool {
+	if g.locksMemo == nil {
+		g.locksMemo = map[*ssa.Function]bool{}
+		// fixpoint
+		for changed := true; changed; {
+			changed = false
+			for _, name := range g.fnames {
+				f := g.funcs[name]
+				if g.locksMemo[f] {
+					continue
+				}
+				for _, b := range f.Blocks {
+					for _, ins := range b.Instrs {
+						c, ok := ins.(ssa.CallInstruction)
+						if !ok {
+							continue
+						}
+						cc := c.Common()
+						if t := cc.StaticCallee(); t != nil {
+							n := t.String()
+							if strings.HasSuffix(n, ").Lock") || strings.HasSuffix(n, ").RLock") || g.locksMemo[t] {
+								g.locksMemo[f] = true
+							}
+							continue
+						}
+						if cc.IsInvoke() {
+							continue
+						}
+						if _, isB := cc.Value.(*ssa.Builtin); isB {
+							continue
+						}
+						// a function value: user code may call back into the API, which locks
+						g.locksMemo[f] = true
+					}
+				}
+				if g.locksMemo[f] {
+					changed = true
+				}
+			}
+		}
+	}
+	return g.locksMemo[fn]
 }
